@@ -254,7 +254,7 @@ func (p *pathState) choose(n int, name string) int {
 func (p *pathState) violation(kind, msg string) {
 	_, m := p.w.solver.check(p.pc, true, p.drawTerms())
 	model, order := p.modelOf(m)
-	p.res.Violations = append(p.res.Violations, Violation{Kind: kind, Msg: msg, Model: model, Order: order, Notes: append([]string{}, p.notes...), Script: Script(p.pc)})
+	p.res.Violations = append(p.res.Violations, Violation{Kind: kind, Msg: msg, Model: model, Order: order, Notes: append([]string{}, p.notes...), Script: Script(p.pc), Known: append([]string{}, p.known...)})
 }
 
 // ---- channels
